@@ -8,7 +8,8 @@ usage: tools_seed.py <PID> <A|B> <check ids...>
 import json, os, subprocess, sys, time, shutil
 pid, x = sys.argv[1], sys.argv[2]
 checks = sys.argv[3:]
-wt = '/tmp/wt_%s' % pid
+wt = os.environ.get('SEED_WT', '/tmp/wt_%s' % pid)
+label = os.environ.get('SEED_LABEL', '%s-%s' % (pid, x))
 diff = '%s/mut%s.diff' % (wt, x)
 demo = '%s/mut%s_demo.py' % (wt, x)
 env = dict(os.environ, PYTHONPATH=wt + '/src', PYTHONDONTWRITEBYTECODE='1')
@@ -36,7 +37,7 @@ for c in checks:
                          'stderr': r.stderr[-300:] if r.returncode == 2 else ''}
 sh('git checkout -- .')
 meta['diff_stat'] = sh('git apply --stat %s' % diff).stdout.strip()
-d = '/verif/seeded/%s-%s' % (pid, x)
+d = '/verif/seeded/' + label
 os.makedirs(d, exist_ok=True)
 shutil.copy(diff, d + '/patch.diff'); shutil.copy(demo, d + '/demo.py')
 notes = wt + '/NOTES.md'
